@@ -97,6 +97,48 @@ func evalProgram(vm *r.VM, program *syntax.Program, varInputs r.ElementMap) (r.E
 	return value.NewNull(), nil
 }
 
+// evalModuleBody - run the body of an imported module. Unlike the body of a method, it is not
+// left behind when it has run: what it declared - variables, constants, methods, types - is
+// what the module's methods work with whenever an importer calls them later, exactly as
+// they do while the module's own statements are running
+func evalModuleBody(vm *r.VM, program *syntax.Program) error {
+	for _, importStmt := range program.ImportBlock {
+		if importStmt.ImportName != nil {
+			vm.SetCurrentLine(importStmt.ImportName.GetCurrentLine())
+		}
+		if err := evalImportStmt(vm, importStmt); err != nil {
+			return err
+		}
+	}
+	execBlock := program.ExecBlock
+	if execBlock == nil {
+		return nil
+	}
+	// nobody hands input values to an imported module
+	if inputParamNum := len(execBlock.InputBlock); inputParamNum != 0 {
+		vm.SetCurrentLine(execBlock.InputBlock[0].GetCurrentLine())
+		return zerr.MismatchParamLengthError(inputParamNum, 0)
+	}
+	blockModule := vm.GetCurrentModule()
+	vm.BeginScope()
+	err := hoistDeclarations(vm, execBlock.StmtBlock)
+	if err == nil {
+		vm.BeginJoinedScope()
+		if _, err = evalStmtsInCurrentScope(vm, execBlock.StmtBlock); err != nil {
+			vm.EndScope()
+		}
+	}
+	if err != nil {
+		// as in any body, the 拦截 blocks of the module get their chance
+		if _, err = handleExceptionSignal(vm, blockModule, execBlock.CatchBlock, err); err != nil {
+			vm.EndScope()
+			return err
+		}
+	}
+	vm.KeepScopeAsRoot()
+	return nil
+}
+
 func evalExecBlock(vm *r.VM, execBlock *syntax.ExecBlock, params []r.Element) (r.Element, error) {
 	vm.BeginScope()
 	defer vm.EndScope()
@@ -1428,25 +1470,9 @@ func execAnotherModule(vm *r.VM, libInfo r.LibNameInfo) (*r.Module, error) {
 		vm.PushCallFrame(callFrame)
 
 		// #3. eval program
-		if _, err := evalProgram(vm, program, nil); err != nil {
+		if err := evalModuleBody(vm, program); err != nil {
 			vm.PopCallFrameOnError(err)
 			return nil, WrapRuntimeError(vm, err)
-		}
-
-		// the scopes opened while executing the module body have been closed by now, taking
-		// the module's own methods and types with them: declare them at the module's root
-		// scope, so that an imported method can still use its siblings when it is called later
-		exportValues := module.GetAllExportValues()
-		exportNames := make([]string, 0, len(exportValues))
-		for exportName := range exportValues {
-			exportNames = append(exportNames, exportName)
-		}
-		sort.Strings(exportNames)
-		for _, exportName := range exportNames {
-			if err := vm.DeclareConstElement(r.NewIDName(exportName), exportValues[exportName]); err != nil {
-				vm.PopCallFrameOnError(err)
-				return nil, WrapRuntimeError(vm, err)
-			}
 		}
 
 		vm.PopCallFrame()
